@@ -57,6 +57,10 @@ func main() {
 		{name: "atomic operations are scheduling points: a racy flag protocol is found at bound 1", bound: 1, wantViol: true, body: atomicFlag},
 		{name: "context cancellation wakes a select on Done", bound: 1, wantViol: false, body: ctxWake, outcomes: []string{"woken"}},
 		{name: "environment choice enumerates all alternatives", bound: 0, wantViol: false, body: chooseTest, outcomes: []string{"0", "1", "2"}},
+		{name: "independent critical sections (3 goroutines, private mutexes): one outcome, HB pruning collapses the interleavings", bound: -1, wantViol: false, body: independentLockers, outcomes: []string{"6"}},
+		{name: "two producers, one consumer, plus independent noise: both delivery orders are seen", bound: -1, wantViol: false, body: producersWithNoise, outcomes: []string{"ab", "ba"}},
+		{name: "lost update amid independent noise is still found at bound 1", bound: 1, wantViol: true, body: lostUpdateWithNoise},
+		{name: "check-then-act amid independent noise: all final values reachable without a bound", bound: -1, wantViol: false, body: raceOutcomesWithNoise, outcomes: []string{"1", "2"}},
 	}
 	failed := 0
 	total := 0
@@ -77,6 +81,25 @@ func main() {
 			failed++
 		}
 		fmt.Printf("%s %-100s bound=%d executions=%d outcomes=%v violations=%d %v\n", status, t.name, t.bound, res.Executions, keys(res.Outcomes), len(res.Violations), res.EngineErr)
+		// the same search with happens-before pruning must give the same verdict and, where the search
+		// ran to the end (no violation), the same set of outcomes
+		scn2 := scn
+		scn2.HB = true
+		res2 := explore.InProcess(&scn2, t.bound)
+		total += res2.Executions
+		ok2 := len(res2.EngineErr) == 0 && (len(res2.Violations) > 0) == t.wantViol
+		if ok2 && !t.wantViol && strings.Join(keys(res2.Outcomes), ";") != strings.Join(keys(res.Outcomes), ";") {
+			ok2 = false
+		}
+		if res2.Executions > res.Executions {
+			ok2 = false
+		}
+		if !ok2 {
+			failed++
+			fmt.Printf("FAIL   with HB pruning: executions=%d outcomes=%v violations=%d %v\n", res2.Executions, keys(res2.Outcomes), len(res2.Violations), res2.EngineErr)
+		} else if res2.Executions < res.Executions {
+			fmt.Printf("       with HB pruning: executions=%d (same verdict and outcomes)\n", res2.Executions)
+		}
 	}
 	fmt.Printf("vrt selftest: %d tests, %d executions, %d failed\n", len(tests), total, failed)
 	if failed > 0 {
@@ -97,6 +120,78 @@ func lostUpdate(x *explore.X) {
 	if v.Load() != 2 {
 		x.Failf("lost update: %d", v.Load())
 	}
+}
+
+func independentLockers(x *explore.X) {
+	var mus [3]vsync.Mutex
+	var ns [3]int
+	var wg vsync.WaitGroup
+	for i := 0; i < 3; i++ {
+		wg.Go(func() {
+			for k := 0; k < 2; k++ {
+				mus[i].Lock()
+				ns[i]++
+				mus[i].Unlock()
+			}
+		})
+	}
+	wg.Wait()
+	x.Outcome("%d", ns[0]+ns[1]+ns[2])
+}
+
+func noise(wg *vsync.WaitGroup) {
+	wg.Go(func() {
+		var mu vsync.Mutex
+		var a vatomic.Int64
+		for k := 0; k < 2; k++ {
+			mu.Lock()
+			a.Add(1)
+			mu.Unlock()
+		}
+	})
+}
+
+func producersWithNoise(x *explore.X) {
+	ch := make(chan string, 2)
+	var wg vsync.WaitGroup
+	noise(&wg)
+	for _, v := range []string{"a", "b"} {
+		wg.Go(func() { vrt.Chan(ch).Send(v) })
+	}
+	got := vrt.Recv1(ch) + vrt.Recv1(ch)
+	wg.Wait()
+	x.Outcome("%s", got)
+}
+
+func lostUpdateWithNoise(x *explore.X) {
+	var v vatomic.Int64
+	var wg vsync.WaitGroup
+	noise(&wg)
+	for i := 0; i < 2; i++ {
+		wg.Go(func() {
+			cur := v.Load()
+			v.Store(cur + 1)
+		})
+	}
+	noise(&wg)
+	wg.Wait()
+	if v.Load() != 2 {
+		x.Failf("lost update: %d", v.Load())
+	}
+}
+
+func raceOutcomesWithNoise(x *explore.X) {
+	var v vatomic.Int64
+	var wg vsync.WaitGroup
+	noise(&wg)
+	for i := 0; i < 2; i++ {
+		wg.Go(func() {
+			cur := v.Load()
+			v.Store(cur + 1)
+		})
+	}
+	wg.Wait()
+	x.Outcome("%d", v.Load())
 }
 
 func lockedIncrement(x *explore.X) {
